@@ -26,7 +26,7 @@ def tokenise (ws : List String) : Option (List Tok × Names) :=
     else match w with
       | "(" => some (ts ++ [.lp], nm) | ")" => some (ts ++ [.rp], nm) | "[" => some (ts ++ [.lb], nm) | "]" => some (ts ++ [.rb], nm)
       | "{" => some (ts ++ [.lc], nm) | "}" => some (ts ++ [.rc], nm) | "," => some (ts ++ [.comma], nm) | ";" => some (ts ++ [.semi], nm)
-      | "." => some (ts ++ [.dot], nm) | "swz" => some (ts ++ [.swz], nm)
+      | "." => some (ts ++ [.dot], nm) | "swz" => some (ts ++ [.swz], nm) | "|" => some (ts ++ [.bar], nm)
       | "_" => some (ts ++ [.sp], nm) | ":" => some (ts ++ [.colon], nm) | ".." => some (ts ++ [.dots false], nm) | "..=" => some (ts ++ [.dots true], nm)
       | "neg" => some (ts ++ [.dash], nm) | "sub" => some (ts ++ [.dash], nm) | "not" => some (ts ++ [.bang], nm) | "tr" => some (ts ++ [.quote], nm)
       | "~" => some (ts ++ [.tilde], nm) | ":=" => some (ts ++ [.define], nm) | "=" => some (ts ++ [.assign], nm) | "NL" => some (ts ++ [.nl], nm)
@@ -61,6 +61,8 @@ partial def sxF (nm : Names) : Fac → String
   | .recd bs => "(rec " ++ sp (bs.map (fun b => match b with
       | .mk x k e => "(bind " ++ nm.ids.getD x "?" ++ " " ++ (match k with | some k => kindToks (nm.kinds.getD k "?") | none => "-") ++ " " ++ sxE nm e ++ ")")) ++ ")"
   | .map ms => if ms.isEmpty then "(map)" else "(map " ++ sp (ms.map (fun m => match m with | .mk k v => "(kv " ++ sxE nm k ++ " " ++ sxE nm v ++ ")")) ++ ")"
+  | .tbl hdr rows => "(tbl " ++ sp (hdr.map (fun f => "(fld " ++ nm.ids.getD f.1 "?" ++ " " ++ kindToks (nm.kinds.getD f.2 "?") ++ ")")) ++ " " ++
+      sp (rows.map (fun r => "(row " ++ sp (r.map (sxE nm)) ++ ")")) ++ ")"
   | .slice x sels => "(slice " ++ nm.ids.getD x "?" ++ " " ++ sp (sels.map (sxL nm)) ++ ")"
   | .paren t => "(paren " ++ sxT nm t ++ ")"
   | .neg f => "(neg " ++ sxF nm f ++ ")"
@@ -95,7 +97,7 @@ def sxStmt (nm : Names) : Stmt → String
 
 /-- the formatter's spelling of a token and the spacing around it: operators between single spaces,
     `, ` in call arguments, sets, records and maps, `: ` after an argument name, a binding name and a map key, `, ` in
-    tuples and subscripts, `,` (no space) inside a swizzle, nothing between the subscripts of a chain, `; ` between matrix rows, `{:}` for the empty map -/
+    tuples and subscripts, `,` (no space) inside a swizzle, nothing between the subscripts of a chain, `; ` between matrix rows, a table as `|a<k> b<k>| e e | e e |`, `{:}` for the empty map -/
 def opAssignSym (k : Nat) : String := ["+=", "-=", "*=", "/=", "^="].getD k "?="
 
 mutual
@@ -109,6 +111,8 @@ partial def txF (nm : Names) : Fac → String
   | .recd bs => "{" ++ ", ".intercalate (bs.map (fun b => match b with
       | .mk x k e => nm.ids.getD x "?" ++ (match k with | some k => "<" ++ nm.kinds.getD k "?" ++ ">" | none => "") ++ ": " ++ txE nm e)) ++ "}"
   | .map ms => if ms.isEmpty then "{:}" else "{" ++ ", ".intercalate (ms.map (fun m => match m with | .mk k v => txE nm k ++ ": " ++ txE nm v)) ++ "}"
+  | .tbl hdr rows => "|" ++ " ".intercalate (hdr.map (fun f => nm.ids.getD f.1 "?" ++ "<" ++ nm.kinds.getD f.2 "?" ++ ">")) ++ "| " ++
+      " | ".intercalate (rows.map (fun r => " ".intercalate (r.map (txE nm)))) ++ " |"
   | .slice x sels => nm.ids.getD x "?" ++ "".intercalate (sels.map (txL nm))
   | .paren t => "(" ++ txT nm t ++ ")"
   | .neg f => "-" ++ txF nm f
